@@ -355,6 +355,7 @@ pub unsafe fn sys_write(fd: c_int, _buf: *const c_void, len: size_t, flags: Opti
             return -1;
         }
         // a blocking write on a full descriptor: the caller hangs
+        (vshim::HOOKS.wblock)(fd);
         vshim::assume(false);
     }
     match f.kind {
